@@ -384,8 +384,13 @@ def op_ro(self, a, targets):
                     raise Skip("shape")
                 hl = {}
                 if a.get("hl"):
-                    hl = {w: [dec_point(p) for p in pts] for w, pts in a["hl"].items()}
+                    # workers are names, PE numbers or PE coordinates (a list of [worker, points] pairs; older
+                    # replay files hold a dictionary keyed by name)
+                    items = a["hl"].items() if isinstance(a["hl"], dict) else a["hl"]
+                    hl = {(tuple(w) if isinstance(w, list) else w): [dec_point(p) for p in pts] for w, pts in items}
                     self.probe("rendered_with_highlights")
+                    if any(not isinstance(w, str) for w in hl):
+                        self.probe("rendered_with_non_string_workers")
                 im1 = TensorImage(t, style=style, highlights={w: list(p) for w, p in hl.items()}).im
                 try:
                     im2 = TensorImage(t, style=style, highlights={w: list(p) for w, p in hl.items()}).im
@@ -656,13 +661,16 @@ def gen_render(self, g):
     if g.random() < 0.6 and sl.depth >= 1 and all(isinstance(x, int) for x in sl.shape):
         # highlights: full points and points with fewer coordinates than the tensor has ranks
         # several workers per picture, drawn from more names than the renderer has colours (ten)
-        a["hl"] = {}
-        for w in g.sample(["PE"] + [f"PE{i}" for i in range(13)], g.choice([1, 1, 2, 4, 7, 11])):
+        a["hl"] = []
+        pool = ["PE"] + [f"PE{i}" for i in range(13)]
+        if g.random() < 0.4:
+            pool = ["PE", 0, 1, 2, [0, 0], [0, 1], [1, 0], 7, "PE3"]      # PE numbers and PE coordinates too
+        for w in g.sample(pool, min(len(pool), g.choice([1, 1, 2, 4, 7, 11]))):
             pts = []
             for _ in range(g.randint(1, 2)):
                 n = g.randint(1, sl.depth)
                 pts.append(enc_point(self.rand_path(g, sl, n)))
-            a["hl"][w] = pts
+            a["hl"].append([w, pts])
     return ["op", "ro", a]
 
 
